@@ -536,7 +536,7 @@ class Parser(object):
                 return variable_1, variable_2
             elif variable_2.public_interface == 'out' and variable_1.public_interface == 'in':
                 return variable_2, variable_1
-        else:
+        elif _parent_of(comp_1, comp_2) or _parent_of(comp_2, comp_1):
             # determine which component is parent of the other
             if _parent_of(comp_1, comp_2):
                 parent_var, child_var = variable_1, variable_2
